@@ -133,6 +133,8 @@ def same_row(exp_row, got_row):
 
 class C07:
     prop = "C07"
+    state_measure = ("of the simulated multi-process run(s): per queue (pipe length, outstanding count) x per live task (task kind, kind of "
+                     "thing it is blocked on), sampled at every scheduler decision; hashed; distinct values counted")
     level = "exploration"
     design_ref = "DESIGN.md 3.6"
     tiers = {"quick": {"runs": 4000, "budget_s": 80, "chunk": 10, "twice_every": 12, "shrink_s": 60},
